@@ -17,15 +17,17 @@ UNMODELLED = []
 SUP = [1.0, 2.0, 0.5, 0.25, 3.0, 4.0, 0.125, 8.0, 0.0]
 COH = {1: [[1.0]], 2: [[0.75, 0.25], [0.5, 0.5], [1.0, 0.0], [0.875, 0.125], [0.0, 1.0], [0.25, 0.75]],
        3: [[0.5, 0.25, 0.25], [0.75, 0.125, 0.125], [1.0, 0.0, 0.0], [0.25, 0.5, 0.25]]}
-PROPS = {1: [[1.0]], 2: [[0.5, 0.5], [0.75, 0.25], [0.125, 0.875], [1.0, 0.0]], 3: [[0.5, 0.25, 0.25], [0.25, 0.25, 0.5], [0.625, 0.25, 0.125]]}
+COH[4] = [[0.5, 0.25, 0.125, 0.125], [0.25, 0.25, 0.25, 0.25], [0.625, 0.125, 0.125, 0.125], [0.5, 0.5, 0.0, 0.0]]
+PROPS = {4: [[0.25, 0.25, 0.25, 0.25], [0.5, 0.25, 0.125, 0.125]], 1: [[1.0]], 2: [[0.5, 0.5], [0.75, 0.25], [0.125, 0.875], [1.0, 0.0]], 3: [[0.5, 0.25, 0.25], [0.25, 0.25, 0.5], [0.625, 0.25, 0.125]]}
 BLOCS = ["W", "C", "X"]
-BLOC_NAME_SETS = [["W", "C", "X"], ["W", "C", "X"], ["bloc_1", "bloc_2", "bloc_3"], ["White", "POC", "Other voters"], ["b", "a", "ab"]]
+BLOC_NAME_SETS = [["W", "C", "X", "Y"], ["W", "C", "X", "Y"], ["bloc_1", "bloc_2", "bloc_3", "bloc_4"],
+                  ["White", "POC", "Other voters", "None of these"], ["b", "a", "ab", "ba"]]
 
 
 def gen_params(rng, gname):
     nb = rng.choice([1, 2, 2, 3])
     if gname in ("slate_PL", "slate_BT", "AlternatingCrossover", "slate_BT_MCMC", "CambridgeSampler"):
-        nb = 2 if gname != "slate_PL" else rng.choice([1, 2, 2, 3, 3])
+        nb = 2 if gname != "slate_PL" else rng.choice([1, 2, 2, 3, 3, 4, 4])
     universe = list(rng.choice(BLOC_NAME_SETS))
     blocs = universe[:nb]
     sizes = [rng.randint(1, 3) for _ in blocs]
